@@ -153,6 +153,10 @@ func (cw *chaosWorld) do(n *chaosNode, call string, idx int, data []byte, f func
 		if got != "state" && got != "input" && got != "nil" && got != "failure" {
 			w.viol("C09", "errclass", "undocumented-error:"+protoName[cw.proto]+":"+call, "%s returned an error outside the documented classes: %v", desc, err)
 		}
+		if class == "input" && got == "nil" {
+			// C09: an out-of-range index must be reported through the typed error, not accepted
+			w.viol("C09", "invalid-input", "invalid-input-accepted:"+protoName[cw.proto]+":"+call, "%s was accepted with a nil error", desc)
+		}
 	}
 	if !rejected && (err == nil || call == "End") {
 		cw.apply(n, call)
